@@ -247,6 +247,44 @@ def check_weights(rep, prog):
         except AlgebraError:
             ok = False
         rep.ob('R-ALG', '%s weights' % q, ok, ast.unparse(ret.value), m2.rel, ret.lineno, what='(1-p2d)*fs1 + p2d*fs2')
+    # the component calls of the mixtures: s1 is documented as a Cache1D, s2 as a Cache2D; every call of one of their methods must
+    # bind to that method's signature, and a literal None may not land in a parameter the method does arithmetic with
+    def arithmetic_use(callee, pname):
+        tested = any(isinstance(n, ast.Compare) and isinstance(n.ops[0], (ast.Is, ast.IsNot)) and ast.unparse(n.left) == pname for n in own_nodes(callee))
+        if tested:
+            return None
+        for n in own_nodes(callee):
+            if isinstance(n, ast.BinOp) and any(isinstance(x, ast.Name) and x.id == pname for x in (n.left, n.right)):
+                return ast.unparse(n)[:50]
+            if isinstance(n, ast.UnaryOp) and isinstance(n.op, ast.USub) and isinstance(n.operand, ast.Name) and n.operand.id == pname:
+                return ast.unparse(n)[:50]
+        return None
+    n_comp = 0
+    for mod_, q in ((C2, 'mixture'), (C2, 'mixture_symmetric_point_pos'), (C2, 'mixture_point_pos'), (VO, 'Vourlaki_mixture')):
+        f = prog.func(mod_, q)
+        frel = prog.mod(mod_).rel
+        for c in own_nodes(f):
+            if not (isinstance(c, ast.Call) and isinstance(c.func, ast.Attribute) and isinstance(c.func.value, ast.Name) and c.func.value.id in ('s1', 's2')):
+                continue
+            cls_mod, cls = (C1, 'Cache1D') if c.func.value.id == 's1' else (C2, 'Cache2D')
+            if not prog.has_func(cls_mod, '%s.%s' % (cls, c.func.attr)):
+                rep.ob('R-SIG', '%s component %s.%s' % (q, c.func.value.id, c.func.attr), False, '%s has no method %s' % (cls, c.func.attr), frel, c.lineno, what='component call binds to the documented class')
+                continue
+            callee = prog.func(cls_mod, '%s.%s' % (cls, c.func.attr))
+            b, problems = bind_call(callee, c, skip_self=True)
+            n_comp += 1
+            rep.ob('R-SIG', '%s component %s.%s' % (q, c.func.value.id, c.func.attr), not problems, '; '.join(problems) or 'binds to %s.%s%s' % (cls, c.func.attr, tuple(positional_params(callee)[1:])),
+                   frel, c.lineno, what='component call binds to the documented class')
+            bad = []
+            for pname, val in b.items():
+                if isinstance(val, ast.Constant) and val.value is None and val in list(c.args) + [k.value for k in c.keywords]:
+                    use = arithmetic_use(callee, pname)
+                    if use:
+                        bad.append('None is passed as %s, which %s.%s uses in `%s`' % (pname, cls, c.func.attr, use))
+            rep.ob('R-ARGS', '%s component %s.%s' % (q, c.func.value.id, c.func.attr), not bad, '; '.join(bad) or 'no None reaches a parameter that is used in arithmetic', frel, c.lineno,
+                   what='every argument the component computes with is supplied')
+    if n_comp < 8:
+        raise AnalysisError('fewer component calls in the mixture functions than the 8 confirmed by reading (%d)' % n_comp)
     mv = prog.mod(VO)
     vf = prog.func(VO, 'Vourlaki_mixture')
     fsn = [n for n in own_nodes(vf) if isinstance(n, ast.Assign) and ast.unparse(n.targets[0]) == 'fs']
